@@ -22,7 +22,7 @@ func init() {
 			"R5: Block and the header-coordinate helper reject segm>=segments and idx<0 before computing an offset (uses of the segment number are followed through merges of result variables, and into the callers of a function that returns it: there a use must sit behind the ok/error outcome of that call that only its accepting exits produce; methods of value types embedded in the allocator count as its methods). " +
 			"R6: in the functions that carry out FreeBlock every store hint=x is dominated by the hint>x edge (a hint that moves up hides free blocks). " +
 			"R7: every product that involves both the blocks-per-segment field and the block-size field uses (blocksPerSegment+1): a segment occupies its header block too (sibling agreement on the stride; floor: each of allocate, free, recount computes the stride in the functions that carry it out). R8: every path to a non-sentinel result of the geometry function takes an edge that bounds the block size from above (without it (8*bs+1)*bs overflows int and the wrapped geometry is accepted). R9: the constructor compares a value derived from the storage size with a bound derived from the int32 counter maximum before it hands out an allocator. R10: on the path of files.NewMMFile every (*os.File).Truncate sits behind a test that the file is shorter than the new size (opening never cuts an existing storage). R11: a hint that was stepped through a header block is set back to a header start (a multiple of the stride, or 0) before the next header is fetched or ErrExhausted is returned. " +
-			"R12: Block and FreeBlock take a block index apart by quotient and remainder of the blocks-per-segment field - the inverse of the segment*blocksPerSegment + position by which ArrangeBlock composes the index it hands out (sibling agreement); a split or composition by a shift/mask is accepted only when the geometry function admits nothing but powers of two (it does not: multiples of the page size). R13 (contract of the storage the rules above take at their word): the byte slice behind an in-memory Buffer only ever becomes nil, the result of make (a part of it, the own content extended by it) or memory cleared over its whole length before the function returns - never a slice from a pool, a package variable or a previously used buffer. R15: an ErrExhausted exit of ArrangeBlock that is decided on a summary kept in the allocator (a flag, the free counter - a field the allocate/free/recount code writes, read on a branch edge behind which every exit is ErrExhausted; the free hint has R6/R11) is sound only if in the functions that carry out FreeBlock every path from the clear-bit store to an exit passes a store that puts the summary back to not-full (the opposite constant of a flag, the +1 of the counter) or an edge on which the summary itself already says not-full; a reset behind a condition on something else is reported. R16: as soon as a function of the package calls Grow on the allocator's storage (census; none on this tree), that call holds the allocator lock and every header slice the allocate/free code indexes is fetched from the storage with the lock held and without the lock being released between the fetch and the use.",
+			"R12: Block and FreeBlock take a block index apart by quotient and remainder of the blocks-per-segment field - the inverse of the segment*blocksPerSegment + position by which ArrangeBlock composes the index it hands out (sibling agreement); a split or composition by a shift/mask is accepted only when the geometry function admits nothing but powers of two (it does not: multiples of the page size). R13 (contract of the storage the rules above take at their word): the byte slice behind an in-memory Buffer only ever becomes nil, the result of make (a part of it, the own content extended by it) or memory cleared over its whole length before the function returns - never a slice from a pool, a package variable or a previously used buffer. R15: an ErrExhausted exit of ArrangeBlock that is decided on a summary kept in the allocator (a flag, the free counter - a field the allocate/free/recount code writes, read on a branch edge behind which every exit is ErrExhausted; the free hint has R6/R11) is sound only if in the functions that carry out FreeBlock every path from the clear-bit store to an exit passes a store that puts the summary back to not-full (the opposite constant of a flag, the +1 of the counter) or an edge on which the summary itself already says not-full; a reset behind a condition on something else is reported. R16: as soon as a function of the package calls Grow on the allocator's storage (census; none on this tree), that call holds the allocator lock and every header slice the allocate/free code indexes is fetched from the storage with the lock held and without the lock being released between the fetch and the use. R17: where the functions that carry out FreeBlock/ArrangeBlock fetch block data through Block() and write it (element store, copy, clear) or hand it on, the index is the operation's own - FreeBlock's index parameter as it came in (not a later assignment to the variable), the expression ArrangeBlock returns, or a helper parameter that receives one at every call; on this tree they fetch no block data (census).",
 		NotDecided: "disjointness of block byte ranges and the index<->offset arithmetic as values; behaviour of the memory mapping; fairness under concurrency.",
 	})
 }
@@ -675,6 +675,8 @@ func runC17(c *Ctx) {
 	c.vbgRules(&vbgEnv{blocks: blocks, bufIface: bufIface, arrange: arrange, free: free, recount: recount, arrangeGroup: arrangeGroup,
 		freeGroup: freeGroup, ctorGroup: ctorGroup, pkgFns: pkgFns, roleFns: roleFns, mutex: mutex, hint: hint, avail: avail, bts: bts,
 		isHdrSlice: isHdrSlice, isClearBit: isClearBit, atomicAdd: atomicAdd})
+	// R17 (v_blocks_h.go)
+	c.vbhOwnBlockData("C17.R17", blocks, blockFn, arrange, free, arrangeGroup, freeGroup)
 
 	// R5 bounds siblings: every function that derives a segment number from an index parameter rejects idx<0 on the
 	// parameter itself (division truncates toward zero: testing the segment number lets -1..-(n-1) through) and
